@@ -587,11 +587,10 @@ def parseBody (proto : Nat) (op : UInt8) : P Frame :=
   else if op == opEvent then parseEventFrame proto
   else P.fail
 
-/-- parseFrame (frame.go:542-591) on the (decompressed) body `f.buf`; the second component of the
-    result is what is left in `f.buf` (the rows of a RESULT/Rows frame, read later by the Iter). -/
-def parseResp (proto : Nat) (h : Header) : Bytes → Outcome (Resp × Bytes) :=
-  if h.version &&& 0x80 == 0 then fun _ => .err
-  else (do
+/-- parseFrame (frame.go:542-591) as a reader over `f.buf` (the decompressed body) -/
+def parseFrameP (proto : Nat) (h : Header) : P Resp :=
+  if h.version &&& 0x80 == 0 then P.fail
+  else do
     let trace ← (if h.flags &&& flagTracing == flagTracing then do
         let u ← readUUID
         pure (some u)
@@ -605,6 +604,10 @@ def parseResp (proto : Nat) (h : Header) : Bytes → Outcome (Resp × Bytes) :=
         pure (some m)
       else pure none)
     let fr ← parseBody proto h.op
-    pure { traceId := trace, warnings := warnings, payload := payload, frame := fr } : P Resp)
+    pure { traceId := trace, warnings := warnings, payload := payload, frame := fr }
+
+/-- parseFrame on the body `buf`; the second component of the result is what is left in `f.buf`
+    (the rows of a RESULT/Rows frame, read later by the Iter). -/
+def parseResp (proto : Nat) (h : Header) (buf : Bytes) : Outcome (Resp × Bytes) := parseFrameP proto h buf
 
 end FrameRead
